@@ -85,6 +85,9 @@ def ini_for(f, ctx):
         if dup:
             L.append(b"syslog_ident = older")
         L.append(b'syslog_ident = "' + IDENT[f["ident"]][0] + b'"')
+    if f.get("synerr"):
+        L.insert(3, b"this line is a syntax error because it has no separator")
+        L.append(b"another broken line")
     return b"\n".join(L) + b"\n"
 
 
@@ -415,3 +418,130 @@ def evaluate(label, f, call, result, o):
                 if sn[k] != base[k]:
                     out["C16"].append(("residue:%s:%s" % (k, nm), "%s differs at %s: %r -> %r" % (k, nm, base[k], sn[k])))
     return out
+
+
+# ------------------------------------------------------------------------------------------------
+# histories: several (config rewrite, call) steps inside ONE process (C06, C11, C16 growth)
+def build_script_hist(ctx, items, snap=True):
+    """items: list of (label, [ (file_rec, call_rec, result) ... ]). All steps of an item run in one forked child."""
+    s = drv.Script()
+    s.add("sinkfile", "file", drv.hx(ctx.log)).add("sinkfile", "filetpl", drv.hx(ctx.tpl_real)).add("sinkstd")
+    s.add("sinksock", "sock", drv.hx(ctx.sock)).add("sinkdevlog", "devlog", drv.hx(ctx.devlog))
+    s.add("helperout", drv.hx(ctx.helper_out.encode()))
+    for label, steps in items:
+        s.add("emit", "item:" + label).add("fork").add("dumpenv").add("snap", 1 if snap else 0)
+        for k, (f, call, result) in enumerate(steps):
+            real = result == "replaced"
+            ini = ini_for(f, ctx)
+            kind, p, argv, envp = call_for(call, ctx, real)
+            if ini == "DIR":
+                s.add("ini", "-").add("inidir")
+            else:
+                s.add("inirmdir").add("ini", drv.hx(ini) if ini is not None else "-")
+            s.path(p).argv(argv)
+            if kind == "execve":
+                s.envp(envp)
+            if real:
+                s.add("real")
+            else:
+                s.add("ret", -1, ERRNO[result])
+            s.add("emit", "begin:%s#%d" % (label, k)).call(kind, "%s#%d" % (label, k))
+        s.add("endfork").add("drain", "post:" + label).add("helperdump", label)
+    return s
+
+
+def run_hist(build, items, workdir, workers=None, timeout=900):
+    workers = workers or c.NCPU
+    batches = [items[i::workers] for i in range(workers)]
+    batches = [b for b in batches if b]
+    ctxs = [Ctx(build, os.path.join(workdir, "w%d" % i)) for i in range(len(batches))]
+    par = bool(build.get("cwd_etc"))
+
+    def one(i):
+        ctx = ctxs[i]
+        sp, op = os.path.join(ctx.w, "script"), os.path.join(ctx.w, "out")
+        with open(sp, "w") as f:
+            f.write(build_script_hist(ctx, batches[i]).text())
+        if os.path.exists(op):
+            os.unlink(op)
+        pre = ":".join([build["lib"], os.path.join(c.BUILD, "librec.so")])
+        ini = os.path.join(ctx.etc, "snoopy.ini") if par else build["ini"]
+        cmd = ["env", "LD_PRELOAD=" + pre, "XDRV_INI=" + ini, os.path.join(c.BUILD, "xdrv"), sp, op]
+        env = {"PATH": "/usr/sbin:/usr/bin:/sbin:/bin", "HOME": "/root", "LANG": "C", "TZ": "UTC"}
+        try:
+            rc = subprocess.run(cmd, env=env, capture_output=True, timeout=timeout, stdin=subprocess.DEVNULL, cwd=ctx.w).returncode
+        except subprocess.TimeoutExpired:
+            rc = 997
+        evs = []
+        if os.path.exists(op):
+            for line in open(op, errors="replace"):
+                try:
+                    evs.append(json.loads(line))
+                except ValueError:
+                    pass
+        return rc, evs
+
+    if par:
+        with ThreadPoolExecutor(max_workers=len(batches)) as ex:
+            outs = list(ex.map(one, range(len(batches))))
+    else:
+        outs = [one(i) for i in range(len(batches))]
+    obs = {}
+    for i, (rc, evs) in enumerate(outs):
+        item, env = None, None
+        for e in evs:
+            ev = e.get("ev")
+            if ev == "mark" and e["label"].startswith("item:"):
+                item = e["label"][5:]
+                obs[item] = {"ctx": ctxs[i], "steps": {}, "env": None}
+            elif item is None:
+                continue
+            elif ev == "env":
+                obs[item]["env"] = e
+            elif ev in ("pre", "at", "ret") and "#" in e.get("label", ""):
+                lab, k = e["label"].rsplit("#", 1)
+                if lab == item:
+                    obs[item]["steps"].setdefault(int(k), {}).setdefault(ev, []).append(e)
+            elif ev == "child":
+                obs[item]["child"] = e
+            elif ev == "drain" and e.get("label", "").startswith("post:"):
+                obs.setdefault(e["label"][5:], {"ctx": ctxs[i], "steps": {}})["post"] = e
+            elif ev == "helper":
+                obs.setdefault(e["label"], {"ctx": ctxs[i], "steps": {}})["helper"] = bytes.fromhex(e["data"])
+    return obs
+
+
+def evaluate_hist(label, steps, expects, o, tail=0):
+    """-> list of (step index, prop-bucket, sig, what)"""
+    res = []
+    if o is None or "ctx" not in o:
+        return [(0, "C01", "no-observation", "no observation")]
+    if o.get("child", {}).get("signal"):
+        res.append((len(o["steps"]), "C01", "crash", "the calling process died with signal %d" % o["child"]["signal"]))
+    base_snap = None
+    for k, (f, call, result) in enumerate(steps):
+        so = dict(o["steps"].get(k, {}))
+        so["ctx"] = o["ctx"]; so["env"] = o.get("env") or {}
+        if k == len(steps) - 1:
+            for key in ("child", "post", "helper"):
+                if key in o:
+                    so[key] = o[key]
+        f2 = dict(f); f2["_expect"] = expects[k]
+        if "pre" not in so:
+            if not o.get("child", {}).get("signal"):
+                res.append((k, "C01", "no-pre", "step never started"))
+            break
+        r = evaluate(label, f2, call, result, so)
+        for prop, lst in r.items():
+            for sig, what in lst:
+                res.append((k, prop, sig, "call #%d of the history: %s" % (k + 1, what)))
+        # growth: the harness ends every history with identical repeats of its last step; libc's one-time allocations
+        # (stdio buffers, NSS caches) have happened by the first repeat, so any further increase is accumulation
+        sn = so["pre"][0].get("snap")
+        if tail and k == len(steps) - 2:
+            base_snap = sn
+        elif tail and k == len(steps) - 1 and base_snap and sn:
+            for key in ("fds", "heap"):
+                if sn[key] != base_snap[key]:
+                    res.append((k, "C16", "growth:" + key, "%s accumulates over identical calls: %r, then %r one call later" % (key, base_snap[key], sn[key])))
+    return res
